@@ -7,10 +7,13 @@ import (
 	"fmt"
 	"net"
 	"reflect"
+	"sort"
 	"sync"
 	"time"
 
+	"github.com/DrmagicE/gmqtt"
 	"github.com/DrmagicE/gmqtt/config"
+	"github.com/DrmagicE/gmqtt/persistence/subscription"
 	"github.com/DrmagicE/gmqtt/plugin/federation"
 
 	"verif/harness/broker"
@@ -175,7 +178,24 @@ func (n *Node) Stop() {
 	}
 }
 
-// WaitView waits until node n's view of peer p equals p's local topic set (and n knows p), for at most d.
+// ActualTopics returns the topic filters that really have a subscriber on node n, read from the broker's
+// subscription store (ground truth, not the federation plugin's own book-keeping), in the format of VerifFedView.
+func ActualTopics(n *Node) []string {
+	set := map[string]bool{}
+	n.B.Srv.SubscriptionService().Iterate(func(clientID string, sub *gmqtt.Subscription) bool {
+		set[sub.ShareName+"|"+sub.TopicFilter] = true
+		return true
+	}, subscription.IterationOptions{Type: subscription.TypeAll})
+	out := make([]string, 0, len(set))
+	for k := range set {
+		out = append(out, k)
+	}
+	sort.Strings(out)
+	return out
+}
+
+// WaitView waits until node n's view of peer p equals the set of topic filters that really have a subscriber on p
+// (and p's own book-keeping agrees, and n knows p), for at most d.
 func WaitView(n, p *Node, d time.Duration) bool {
 	deadline := time.Now().Add(d)
 	for {
@@ -185,7 +205,7 @@ func WaitView(n, p *Node, d time.Duration) bool {
 				knows = true
 			}
 		}
-		if knows && reflect.DeepEqual(nonNil(n.F.VerifFedView(p.Name)), nonNil(p.F.VerifLocalTopics())) {
+		if knows && reflect.DeepEqual(nonNil(n.F.VerifFedView(p.Name)), nonNil(p.F.VerifLocalTopics())) && reflect.DeepEqual(nonNil(p.F.VerifLocalTopics()), ActualTopics(p)) {
 			return true
 		}
 		if time.Now().After(deadline) {
